@@ -430,7 +430,7 @@ Proof. vm_compute. reflexivity. Qed.
 Lemma update_0d_example :
   let s := run (start false) [OMain (OSet 0 (mkNd [] [7%Z]) None false true);
                               OMain (OUpdate 0 (mkNd [] [8%Z]) false)] in
-  get (main s) 0 true = Ok (Some (mkNd [] [8%Z])).
+  get (main s) 0 true = Ok (Some (mkNd [1] [8%Z])).
 Proof. vm_compute. reflexivity. Qed.
 
 (* update falls back to set(check=False): ellipsis-first layouts, every call returns normally,
@@ -669,37 +669,26 @@ Proof. intros H s Hs. apply H. exact Hs. Qed.
 
 (* ---- set with the shape check on *)
 Lemma inv_set c name a lay rsz c' :
-  (forall l, lay = Some l -> lay_first l) -> pos_shape (shp a) ->
-  Inv c -> set c name a lay rsz true = Ok c' -> Inv c'.
+  pos_shape (shp a) -> Inv c -> set c name a lay rsz true = Ok c' -> Inv c'.
 Proof.
-  intros Hlay Hpos [HC HK] Hs. split; [eapply cache_set; eauto|].
-  destruct HC as [_ [_ Hwf]]. unfold set in Hs.
+  intros Hpos [HC HK] Hs. split; [eapply cache_set; eauto|].
+  unfold set in Hs.
   set (l := match lay with Some l => l | None =>
              match lookup name (c_arrays c) with Some e => e_lay e | None => [LEll] end end) in *.
-  assert (Hl : lay_first l).
-  { unfold l. destruct lay; [now apply Hlay|].
-    destruct (lookup name (c_arrays c)) eqn:E.
-    - apply lookup_in in E. destruct (Hwf _ _ E) as [rest [H1 [H2 _]]]. exists rest. auto.
-    - exists []. auto. }
-  destruct Hl as [rest [Hl Hc]]. rewrite Hl in *.
-  destruct (negb (count_ell (LEll :: rest) =? 1)); [discriminate|].
-  destruct (Nat.ltb_spec (length (shp a) + 1) (length (LEll :: rest))) as [|Hrank]; [discriminate|].
-  simpl in Hrank.
-  set (a1 := if rsz then resize_named (gna (c_arrays c) (Some name)) a (LEll :: rest) else a) in *.
-  set (snew := firstn (length (shp a) - length rest) (shp a)).
-  assert (Ha1 : length (shp a1) = length (shp a) /\
-                firstn (length (shp a) - length rest) (shp a1) = snew).
-  { unfold a1. destruct rsz; [|auto]. apply resize_named_rank. lia. }
-  destruct Ha1 as [Hr1 Hf1].
-  simpl in Hs. destruct (check_shape c (shp a1) (LEll :: rest) (Some name)) eqn:Hchk; [|discriminate].
-  simpl in Hs. inversion Hs; subst c'; clear Hs.
+  destruct (Nat.eqb_spec (count_ell l) 1) as [Hone|]; [|discriminate]. cbn [negb] in Hs.
+  destruct (count_one_split l Hone) as [pre [rest [Hl [Hc Hc']]]].
+  destruct (Nat.ltb_spec (length (shp a) + 1) (length l)) as [|Hrank]; [discriminate|].
+  rewrite Hl, app_length in Hrank. simpl in Hrank.
+  set (a1 := if rsz then resize_named (gna (c_arrays c) (Some name)) a l else a) in *.
+  assert (Ha1 : shared_axes (shp a1) l = shared_axes (shp a) l).
+  { unfold a1. destruct rsz; [|auto]. rewrite Hl. apply resize_named_rank; auto; lia. }
+  cbn [andb] in Hs. destruct (check_shape c (shp a1) l (Some name)) eqn:Hchk; [|discriminate].
+  cbn [negb] in Hs. inversion Hs; subst c'; clear Hs.
   unfold check_shape in Hchk. apply andb_true_iff in Hchk. destruct Hchk as [_ Hcc].
-  unfold check_common, slice in Hcc. simpl in Hcc.
-  replace (length (shp a1) + 1 - S (length rest) - 0) with (length (shp a) - length rest) in Hcc by lia.
-  rewrite Hf1 in Hcc.
-  assert (Hnew : entry_shared (mkE (LEll :: rest) a1) = snew).
-  { unfold entry_shared. simpl e_lay. simpl e_arr. rewrite shared_axes_first, Hr1. exact Hf1. }
-  assert (Hsub : forall s, In s (shared_list (set_assoc name (mkE (LEll :: rest) a1) (c_arrays c)) (c_default c)) ->
+  unfold check_common in Hcc. rewrite Ha1 in Hcc.
+  set (snew := shared_axes (shp a) l) in *.
+  assert (Hnew : entry_shared (mkE l a1) = snew) by exact Ha1.
+  assert (Hsub : forall s, In s (shared_list (set_assoc name (mkE l a1) (c_arrays c)) (c_default c)) ->
                  s = snew \/ In s (shared_list (c_arrays c) (c_default c))).
   { intros s Hin. apply in_shared_list in Hin. destruct Hin as [->|[nm [e [Hin ->]]]].
     - right. apply shared_list_in_dflt.
@@ -707,10 +696,14 @@ Proof.
       right. eapply shared_list_in_arr; eauto. }
   apply compat_with_arrays.
   - intros s Hin. destruct (Hsub s Hin) as [->|Hold]; [|apply HK; exact Hold].
-    intros x Hx. apply Hpos. eapply in_firstn'; eauto.
+    intros x Hx. apply Hpos. unfold snew, shared_axes, slice in Hx.
+    apply in_firstn' in Hx. now apply in_skipn' in Hx.
   - eapply (coh_add _ _ (c_shape c) snew); [apply (compat_of_Compat c HK)| |exact Hsub].
     apply check_dims. exact Hcc.
 Qed.
+
+Lemma shared_axes_ell sh : shared_axes sh [LEll] = sh.
+Proof. unfold shared_axes, slice. simpl. rewrite !Nat.sub_0_r. apply firstn_all. Qed.
 
 Lemma inv_broadcast c sh c' : pos_shape sh -> Inv c -> broadcast c sh = Ok c' -> Inv c'.
 Proof.
@@ -718,8 +711,7 @@ Proof.
   destruct (check_shape c sh [LEll] None) eqn:Hchk; inversion Hb; subst c'; clear Hb.
   split; [now apply cache_same_arrays|].
   unfold check_shape in Hchk. apply andb_true_iff in Hchk. destruct Hchk as [_ Hcc].
-  unfold check_common, slice in Hcc. simpl in Hcc.
-  replace (length sh + 1 - 1 - 0) with (length sh) in Hcc by lia. rewrite firstn_all in Hcc.
+  unfold check_common in Hcc. rewrite shared_axes_ell in Hcc.
   assert (Hsub : forall s, In s (shared_list (c_arrays c) sh) ->
                  s = sh \/ In s (shared_list (c_arrays c) (c_default c))).
   { intros s Hin. apply in_shared_list in Hin. destruct Hin as [->|[nm [e [Hin ->]]]]; [now left|].
@@ -861,7 +853,7 @@ Qed.
    code performs with check=False) would have passed the check *)
 Definition bop_ok (c : coll) (o : bop) : Prop :=
   match o with
-  | OSet _ a lay _ chk => (forall l, lay = Some l -> lay_first l) /\ pos_shape (shp a) /\ chk = true
+  | OSet _ a lay _ chk => pos_shape (shp a) /\ chk = true
   | OUpdate name v rsz =>
       pos_shape (shp v) /\
       forall c1, update c name v rsz = Ok (c1, true) -> set c name v None rsz true = Ok c1
@@ -880,12 +872,12 @@ Qed.
 Lemma inv_bstep c o c' p r : bop_ok c o -> Inv c -> bstep c o = Ok (c', p, r) -> Inv c'.
 Proof.
   intros Hok HI Hs. destruct o; simpl in Hs, Hok.
-  - destruct Hok as [Hl [Hp ->]].
+  - destruct Hok as [Hp ->].
     destruct (set c name a lay rsz true) eqn:E; inversion Hs; subst. eapply inv_set; eauto.
   - destruct Hok as [Hp Hf].
     destruct (update c name a rsz) as [[c1 p1]|] eqn:E; inversion Hs; subst.
     destruct p; [|eapply inv_update_inplace; eauto].
-    eapply (inv_set c name a None rsz); [discriminate|exact Hp|exact HI|apply Hf; reflexivity].
+    eapply (inv_set c name a None rsz); [exact Hp|exact HI|apply Hf; reflexivity].
   - destruct (get c name bcast); inversion Hs; subst. exact HI.
   - pose proof (inv_pop c name HI) as H. destruct (pop c name). inversion Hs; subst. exact H.
   - destruct (resize c ax size cst) eqn:E; inversion Hs; subst. eapply inv_resize; eauto.
@@ -898,7 +890,6 @@ Qed.
 Definition op_ok (s : state) (o : op) : Prop :=
   match o with
   | OMain b => bop_ok (main s) b
-  | OChild b => bop_first b
   | _ => True
   end.
 Fixpoint ok_run (s : state) (h : list op) : Prop :=
@@ -922,7 +913,7 @@ Proof.
   - destruct (child s) as [ch|] eqn:Ech; [|discriminate].
     destruct (bstep ch o) as [[[c' p] r']|] eqn:Eb; inversion E; subst; clear E.
     split; simpl; [assumption|]. intros ch' Hch'. inversion Hch'; subst.
-    exact (cache_bstep _ _ _ _ _ Hok (Hc _ eq_refl) Eb).
+    exact (cache_bstep _ _ _ _ _ (Hc _ eq_refl) Eb).
   - inversion E; subst. split; simpl; [now rewrite copy_id|assumption].
   - destruct (child s) eqn:Ech; inversion E; subst. split; simpl; [assumption|].
     intros ch Hch. inversion Hch; subst. apply cache_follow, cache_init.
@@ -964,66 +955,78 @@ Proof.
   now rewrite !ori_invol in H.
 Qed.
 
-(* every stored array is returned; its shape is the common shape in the broadcast axes followed
-   by the array's own sizes of the fixed / named / free axes *)
+Lemma firstn_app_exact {A} (a b : list A) : firstn (length a) (a ++ b) = a.
+Proof. rewrite firstn_app, Nat.sub_diag, firstn_O, app_nil_r. apply firstn_all. Qed.
+Lemma skipn_app_exact {A} (a b : list A) : skipn (length a) (a ++ b) = b.
+Proof. rewrite skipn_app, Nat.sub_diag, skipn_all. reflexivity. Qed.
+
+(* every stored array is returned; its shape is: own sizes of the items before the ellipsis, the
+   common shape in the broadcast axes, own sizes of the items after the ellipsis *)
 Theorem inv_get c nm e :
   Inv c -> lookup nm (c_arrays c) = Some e ->
-  exists r rest,
-    get c nm true = Ok (Some r) /\ e_lay e = LEll :: rest /\
-    shp r = c_shape c ++ skipn (length (shp (e_arr e)) - length rest) (shp (e_arr e)).
+  exists r pre rest,
+    get c nm true = Ok (Some r) /\ e_lay e = pre ++ LEll :: rest /\
+    shp r = firstn (length pre) (shp (e_arr e)) ++ c_shape c ++
+            skipn (length (shp (e_arr e)) - length rest) (shp (e_arr e)).
 Proof.
   intros [[H1 [H2 H3]] HK] Hl.
-  destruct (H3 _ _ (lookup_in _ _ _ Hl)) as [rest [Hlay [Hc Hr]]].
-  specialize (H2 _ _ Hl). rewrite Hlay, bshape_first in H2.
+  destruct (H3 _ _ (lookup_in _ _ _ Hl)) as [pre [rest [Hlay [Hc [Hc' Hr]]]]].
+  specialize (H2 _ _ Hl). rewrite Hlay, bshape_split in H2 by assumption.
   set (sh := shp (e_arr e)) in *. set (S := c_shape c) in *.
-  set (post := skipn (length sh - length rest) sh) in *.
+  set (A := firstn (length pre) sh) in *. set (P := skipn (length sh - length rest) sh) in *.
   unfold get. rewrite Hl, H2. fold sh.
-  destruct (shape_eqb sh (S ++ post)) eqn:Eq.
-  - exists (e_arr e), rest. apply list_eqb_eq in Eq. auto.
-  - unfold expand_and_broadcast. rewrite Hlay. simpl ell_index. fold sh. fold S.
-    assert (Hn : length sh + 1 - length (LEll :: rest) = length sh - length rest) by (simpl; lia).
-    rewrite Hn. cbn [Nat.add]. rewrite !firstn_O. cbn [app].
-    unfold slice. rewrite Nat.sub_0_r. cbn [skipn]. fold post.
-    set (mid := firstn (length sh - length rest) sh).
+  destruct (shape_eqb sh (A ++ S ++ P)) eqn:Eq.
+  - exists (e_arr e), pre, rest. apply list_eqb_eq in Eq. auto.
+  - unfold expand_and_broadcast. rewrite Hlay. rewrite ell_index_split by assumption. fold sh. fold S.
+    assert (Hn : length sh + 1 - length (pre ++ LEll :: rest) = length sh - length pre - length rest)
+      by (rewrite app_length; simpl; lia).
+    rewrite Hn.
+    replace (length pre + (length sh - length pre - length rest)) with (length sh - length rest) by lia.
+    fold A. fold P.
+    set (mid := slice (length pre) (length sh - length rest) sh).
     assert (Hmid : In mid (shared_list (c_arrays c) (c_default c))).
     { replace mid with (entry_shared e).
       - eapply shared_list_in_arr. eapply lookup_in; eauto.
-      - unfold entry_shared. rewrite Hlay, shared_axes_first. reflexivity. }
+      - unfold entry_shared. rewrite Hlay, shared_axes_split by assumption. reflexivity. }
     destruct (HK _ Hmid) as [_ Hcm]. fold S in Hcm.
-    set (E := fit (c_app c) (length S) mid ++ post).
-    assert (HT : S ++ skipn (length S) E = S ++ post).
-    { unfold E. rewrite skipn_app, length_fit, Nat.sub_diag.
-      rewrite skipn_all2 by (rewrite length_fit; lia). reflexivity. }
+    set (F := fit (c_app c) (length S) mid).
+    assert (HA : length A = length pre) by (unfold A; rewrite firstn_length; lia).
+    assert (HF : length F = length S) by apply length_fit.
+    assert (HT : firstn (length pre) (A ++ F ++ P) ++ S ++ skipn (length pre + length S) (A ++ F ++ P)
+                 = A ++ S ++ P).
+    { rewrite <- HA, <- HF. rewrite firstn_app_exact. do 2 f_equal.
+      rewrite skipn_app. rewrite skipn_all2 by lia. cbn [app].
+      replace (length A + length F - length A) with (length F) by lia. apply skipn_app_exact. }
     rewrite HT. cbn [andb].
-    destruct (shape_eqb (S ++ post) E) eqn:ET.
-    + cbn [negb]. exists (mkNd E (dat (e_arr e))), rest. apply list_eqb_eq in ET. simpl. auto.
+    destruct (shape_eqb (A ++ S ++ P) (A ++ F ++ P)) eqn:ET.
+    + cbn [negb]. exists (mkNd (A ++ F ++ P) (dat (e_arr e))), pre, rest.
+      apply list_eqb_eq in ET. simpl. auto.
     + cbn [negb]. unfold broadcast_to. cbn [shp dat].
-      assert (HL : length E = length (S ++ post)) by (unfold E; now rewrite !app_length, length_fit).
+      assert (HL : length (A ++ F ++ P) = length (A ++ S ++ P)) by (rewrite !app_length, HF; reflexivity).
       rewrite HL, Nat.sub_diag. cbn [repeat app].
       rewrite Nat.leb_refl. cbn [andb].
-      assert (Hbc : bc_okb E (S ++ post) = true).
-      { unfold bc_okb, E. rewrite forallb2_app by apply length_fit.
-        fold (bc_okb (fit (c_app c) (length S) mid) S). rewrite compat_bc by exact Hcm.
-        apply forallb2_refl. intros x. unfold bc_dim. now rewrite Nat.eqb_refl. }
-      rewrite Hbc. exists (mkNd (S ++ post) (bc E (S ++ post) (dat (e_arr e)))), rest. auto.
+      assert (Hrefl : forall x, bc_dim x x = true) by (intros x; unfold bc_dim; now rewrite Nat.eqb_refl).
+      assert (Hbc : bc_okb (A ++ F ++ P) (A ++ S ++ P) = true).
+      { unfold bc_okb. rewrite forallb2_app by reflexivity. rewrite (forallb2_refl bc_dim A Hrefl).
+        cbn [andb]. rewrite forallb2_app by exact HF.
+        fold (bc_okb F S). unfold F. rewrite compat_bc by exact Hcm.
+        apply forallb2_refl. exact Hrefl. }
+      rewrite Hbc. exists (mkNd (A ++ S ++ P) (bc (A ++ F ++ P) (A ++ S ++ P) (dat (e_arr e)))), pre, rest. auto.
 Qed.
 
-(* shape-incompatible insertions raise (ellipsis-first layouts, check not disabled): if some
-   aligned axis of the broadcast part clashes with the common shape, set returns ValueError *)
-Theorem set_incompatible_raises c name a rest :
-  count_ell rest = 0 -> length rest <= length (shp a) ->
-  (exists i, dim_ok (vw (c_app c) (firstn (length (shp a) - length rest) (shp a)) i)
-                    (vw (c_app c) (c_shape c) i) = false) ->
-  set c name a (Some (LEll :: rest)) false true = Err EValue.
+(* shape-incompatible insertions raise, for every layout with one ellipsis (anywhere), check not
+   disabled: if some aligned axis of the broadcast part clashes with the common shape, set
+   returns ValueError *)
+Theorem set_incompatible_raises c name a l :
+  count_ell l = 1 -> length l <= length (shp a) + 1 ->
+  (exists i, dim_ok (vw (c_app c) (shared_axes (shp a) l) i) (vw (c_app c) (c_shape c) i) = false) ->
+  set c name a (Some l) false true = Err EValue.
 Proof.
-  intros Hc Hr [i Hi]. unfold set.
-  rewrite (count_ell_first rest Hc). cbn [Nat.eqb negb].
-  destruct (Nat.ltb_spec (length (shp a) + 1) (length (LEll :: rest))) as [H|_]; [simpl in H; lia|].
+  intros Hc Hr [i Hi]. unfold set. rewrite Hc. cbn [Nat.eqb negb].
+  destruct (Nat.ltb_spec (length (shp a) + 1) (length l)) as [H|_]; [lia|].
   cbn [andb]. unfold check_shape.
-  destruct (check_common c (shp a) (LEll :: rest)) eqn:Hcc.
-  - exfalso. unfold check_common, slice in Hcc. simpl in Hcc.
-    replace (length (shp a) + 1 - S (length rest) - 0) with (length (shp a) - length rest) in Hcc by lia.
-    pose proof (check_dims _ _ _ Hcc i) as Hd. congruence.
+  destruct (check_common c (shp a) l) eqn:Hcc.
+  - exfalso. unfold check_common in Hcc. pose proof (check_dims _ _ _ Hcc i) as Hd. congruence.
   - rewrite andb_false_r. reflexivity.
 Qed.
 
@@ -1033,6 +1036,7 @@ Definition demo_history : list op :=
    OMain (OSet 1 (mkNd [3; 3] [0; 0; 1; 0; 0; 1; 0; 0; 1]%Z) (Some [LEll; LName 0; LFix 3]) true true);
    OLink true;
    OMain (OResize 0 3 0%Z);
+   OMain (OSet 2 (mkNd [3; 2] [1; 2; 3; 4; 5; 6]%Z) (Some [LName 0; LEll]) false true);
    OMain (OUpdate 0 (mkNd [3; 3] [1; 1; 1; 2; 2; 2; 3; 3; 3]%Z) false);
    OMain (OBroadcast [2; 4]); OMain (OExpand 1); OCopy; OMain (OReduce 1); OMain (OPop 1)].
 
@@ -1043,13 +1047,11 @@ Lemma demo_ok : ok_run (start true) demo_history /\ all_ok (start true) demo_his
                 gets_ok (main (run (start true) demo_history)) = true.
 Proof.
   split; [|split; vm_compute; reflexivity].
-  unfold demo_history. cbn [ok_run op_ok bop_ok bop_first].
+  unfold demo_history. cbn [ok_run op_ok bop_ok].
   repeat match goal with
   | |- _ /\ _ => split
   | |- True => exact I
   | |- true = true => reflexivity
-  | |- forall l, Some _ = Some l -> lay_first l =>
-      let l := fresh in let E := fresh in intros l E; inversion E; subst; eexists; split; reflexivity
   | |- pos_shape _ => solve_pos
   | |- forall c1, update _ _ _ _ = Ok (c1, true) -> _ =>
       let c1 := fresh in let E := fresh in intros c1 E; vm_compute in E; discriminate
